@@ -45,6 +45,8 @@ def execute(ctx, binary, nn, scheds, tag):
 
 
 def run(ctx, replay=None):
+    if replay and json.load(open(replay)).get("kind") == "cluster":
+        return replay_cluster(ctx, replay)
     binary = build(ctx)
     pre = PREFIX[ctx.prop]
     nn = 3
@@ -78,6 +80,12 @@ def run(ctx, replay=None):
             viol.append({"clauses": again, "tags": [], "schedule": scheds[tid]})
         else:
             ctx.log("report %s on trace %d not reproduced; ignored" % (mine, tid))
+    ccov = {}
+    if ctx.prop == "C02" and not replay:
+        # the agreement clause: multi-node histories (spec/SerfCluster.tla) on real nodes
+        from families import cluster
+        cviol, ccov = cluster.run_agreement(ctx)
+        viol += cviol
     new, known = vlib.classify(ctx.prop, viol)
     nsteps = sum(len(s) for s in scheds)
     kinds = {}
@@ -95,6 +103,26 @@ def run(ctx, replay=None):
                 "Serf node; every step's projected state validated by TLC and judged by the monitors; distinct = distinct input sequences",
         "samples": [scheds[0][:8]] if scheds else [],
     }
+    cov.update(ccov)
+    if ccov:
+        cov["states"] += sum(m["states"] for m in ccov["cluster_model"])
+        cov["transitions"] += sum(m["transitions"] for m in ccov["cluster_model"])
+        cov["traces_validated_against_impl"] += ccov["cluster_traces"]
     assume = ["memberlist delivers no leave notification for a node it has not reported and none about the local node",
               "state is read through an overlay accessor (members, status times, failed/left lists, intent buffer) and the public API"]
     vlib.finish(ctx, "model_checking", cov, assume, new, known)
+
+
+def replay_cluster(ctx, replay):
+    from families import cluster
+    v = json.load(open(replay))
+    binary = cluster.build(ctx)
+    tp, _ = cluster.execute(ctx, binary, v["nn"], v["formed"], [v["schedule"]], "replay")
+    tcfg = "SPECIFICATION TraceSpec\nINVARIANT Done\n" + cluster.cfg(v["nn"], 100000, 100000, 100000, v["formed"], False)
+    rep = vlib.validate(ctx, "Trace_SerfCluster", tcfg, tp)
+    viol = [{"clauses": sorted(m[2]), "tags": sorted(m[3]), "schedule": v["schedule"], "nn": v["nn"], "formed": v["formed"],
+             "kind": "cluster"} for m in rep.monitors]
+    new, known = vlib.classify(ctx.prop, viol)
+    cov = {"states": 1, "transitions": 1, "traces_validated_against_impl": rep.traces, "samples": [v["schedule"][:8]],
+           "evaluations": rep.lines, "distinct_nontrivial": 2, "rule": "replay of one recorded cluster schedule"}
+    vlib.finish(ctx, "model_checking", cov, ["replay"], new, known)
